@@ -785,6 +785,25 @@ func buildRevoChain(cc *chainCase) []*Issued {
 	return out
 }
 
+// servableOverHTTP: can this scripted bundle be delivered as it is by the real fetcher downloading from the scripted
+// transport? (a failure, a bundle whose delta the base does not advertise, or a base advertising a delta nobody serves cannot:
+// such a URL is served as a 404 / fails by itself, abstractly a failed download)
+func servableOverHTTP(b *fetchBehaviour) bool {
+	if b == nil || b.err != nil || b.bundle == nil || b.bundle.BaseCRL == nil || b.panicV != nil {
+		return false
+	}
+	advertises := false
+	for _, e := range b.bundle.BaseCRL.Extensions {
+		if e.Id.Equal(oidFreshestCRL) {
+			advertises = true
+		}
+	}
+	if b.bundle.DeltaCRL == nil {
+		return !advertises
+	}
+	return b.deltaURL != ""
+}
+
 // recordingFetcher: a fetcher in front of the real HTTPFetcher that notes which URLs it was asked for
 type recordingFetcher struct {
 	inner corecrl.Fetcher
@@ -843,7 +862,7 @@ func runChainCase(r *Runner, cc chainCase, idx int) {
 			}
 			ft.m[u] = b
 			crlEnv[u] = absFetch(b, issuer.Cert)
-			if cc.realFetcher && (b == nil || b.err != nil || b.bundle == nil || b.bundle.BaseCRL == nil || (b.bundle.DeltaCRL != nil && b.deltaURL == "") || b.panicV != nil) {
+			if cc.realFetcher && !servableOverHTTP(b) {
 				// served as a 404 through the real fetcher (see below): a failed download
 				crlEnv[u] = map[string]any{"base": nil}
 			}
@@ -945,7 +964,7 @@ func runChainCase(r *Runner, cc chainCase, idx int) {
 				// the CRLs travel over the scripted transport through the real HTTPFetcher (no cache): a URL the fetcher refuses is
 				// refused by the fetcher itself; a scripted failure is a 404; bundles with a delta are not served this way
 				for u, b := range ft.m {
-					if b != nil && b.err == nil && b.bundle != nil && b.bundle.BaseCRL != nil && (b.bundle.DeltaCRL == nil || b.deltaURL != "") && b.panicV == nil {
+					if servableOverHTTP(b) {
 						tr.m[u] = &httpBehaviour{body: b.bundle.BaseCRL.Raw}
 						if b.bundle.DeltaCRL != nil {
 							tr.m[b.deltaURL] = &httpBehaviour{body: b.bundle.DeltaCRL.Raw}
